@@ -47,6 +47,7 @@ class Ctx:
         self.pid = pid
         self.tier = tier
         self.seed = seed
+        os.environ["VERIF_TIER_EFFECTIVE"] = tier   # read by the forked oracle workers (per-case time budget)
         self.rng = random.Random(f"{seed}:{pid}")
         self.t0 = time.time()
         self.broken: list[dict] = []          # proof obligations / ties that no longer check
